@@ -603,10 +603,14 @@ pub fn scenario_forged(seed: u64, rep: &mut Report) {
         let (d1, n1) = random_packet(&mut rng, &p.id(), &vid);
         rig.inject(m_addr, d1);
         rig.settle().await;
-        // the application knows P's record
+        // the application knows P's record, or has never heard of P
+        let known = rng.chance(2, 3);
+        if !known {
+            rep.count("forged_for_unknown_peer");
+        }
         for e in rig.take_events() {
             if let HandlerOut::WhoAreYou(w) = e.v {
-                rig.submit(HandlerIn::WhoAreYou(w, Some(p.ident.enr.clone())));
+                rig.submit(HandlerIn::WhoAreYou(w, known.then(|| p.ident.enr.clone())));
             }
         }
         rig.settle().await;
